@@ -16,6 +16,7 @@ func init() {
 			{"commit-point", "no error exit of storeBlock is reachable after the PersistPrivate publish (one tabled exception), and the publish is gated by the MPT update and the storing goroutine's outcome", ruleCommitPoint},
 			{"admit-dominators", "the per-transaction verification a block goes through (verifyAndPoolTx) is gated by every admission check - script, expiry, policy for every signer, size, fee, on-chain conflicts, witnesses, attributes: a block of individually invalid transactions is not an acceptable extension", ruleAdmitDominators},
 			{"witness-covered-shortcut", "a shortcut of AddBlock that is keyed by a hash (header already known, transaction already pooled) looks at the witness it is about to store - the hash covers neither a header's nor a transaction's witness", ruleWitnessCoveredShortcut},
+			{"trusted-header-checked", "the comparison of the header at the trusted height with the configured hash gates the store of the batch and is made on the batch that is stored (no reassignment of the batch in between)", ruleTrustedHeaderChecked},
 			{"accept-dominators", "every acceptance check (index, state-root setting, header link/verification, Merkle root, per-transaction verification; header chain checks and witness against the previous NextConsensus) gates storeBlock / HeaderHashes.addHeaders on every CFG path", ruleAcceptDominators},
 		},
 		NotCovered: "that each check computes the right thing; witness VM semantics; that the correct block is still accepted afterwards",
@@ -129,6 +130,7 @@ func init() {
 			{"stage-gated-accessor", "every way from a P2P command handler to statesync.Module.BlockHeight - which panics until the MPT stage is complete - passes a branch on the module's stage that controls the onward call (one data-gated site tabled): a peer's message during the header or MPT stage must be ignored, not crash the node", ruleStageGatedAccessor},
 			{"ring-slot-index", "in the block queue, the element found in the ring slot computed for an index is compared with that same index (same base, same constant offset): a clean-up that is off by one never matches, the length leaks and the node stops asking for blocks", ruleRingSlotIndex},
 			{"record-layout-agreement", "every trie mode that state synchronisation computes from KeepOnlyLatestState / RemoveUntraceableBlocks has the reference-counting bit of the state-root module's mode for all four combinations: the synchronised records are read by that module after the jump", ruleRecordLayoutAgreement},
+			{"trusted-header-checked", "the comparison of the header at the trusted height with the configured hash gates the store of the batch and is made on the batch that is stored (no reassignment of the batch in between)", ruleTrustedHeaderChecked},
 			{"lock-pairing", "in pkg/network/bqueue and pkg/core/statesync every mutex acquired is released on every exit (defer-aware, boolean-correlated; the hand-unlocked Blocking branch of Queue.Put included)", func(c *Ctx) { lockPairingPkgs(c, []string{"pkg/network/bqueue", "pkg/core/statesync"}, nil, 10) }},
 			{"lockset", "the block queue's ring/len/lastQ and the state-sync module's stage, sync point, heights, tries and node pool are read and written only while the owning mutex is held (write lock for writes), in methods every call site of which holds it, or in the tabled traversal callback", ruleLocksetSync},
 			{"stage-machine", "the state jump that ends a state synchronisation is a well-formed stage machine: markers name the next clause and are persisted with the stage, and everything the jump writes to the store is in or before the batch that removes the marker (a restart at any point resumes or finds the jump complete)", ruleStageMachine},
